@@ -10,7 +10,9 @@ prints one verdict line:
 Imports model and spec only — no proof modules, no Mathlib — so that it links.
 -/
 import PqlModel.Model.Lex
+import PqlModel.Model.Parse
 import PqlModel.Spec.LexOracle
+import PqlModel.Spec.ParseOracle
 import Driver.Proto
 open Pql
 
@@ -22,6 +24,17 @@ def fmtTokens (ts : List Token) : String :=
 
 def fmtPieces (ps : List Bytes) : String :=
   ps.foldl (fun acc p => acc ++ " " ++ Bytes.toHexField p) (toString ps.length)
+
+def fmtErr (e : PErr) : String :=
+  if e.fuel then "FUEL" else
+  match e.span with
+  | some sp => toString sp.start ++ " " ++ toString sp.stop ++ " t " ++ dumpBool e.notFound
+  | none => "-1 -1 f " ++ dumpBool e.notFound
+
+def fmtParse (r : List Stmt × Errs) : String :=
+  let head := if r.2.isEmpty then "OK 0"
+    else r.2.foldl (fun acc e => acc ++ " " ++ fmtErr e) ("ERR " ++ toString r.2.length)
+  r.1.foldl (fun acc s => acc ++ " ;; " ++ s.dump) head
 
 structure Verdict where
   model : String
@@ -49,6 +62,12 @@ def runOp (op : String) (fields : List String) (impl : String) : Option Verdict 
         | _, _, _ => ["unparseable-result"]
       | _ => ["unparseable-result"]
     pure { model := fmtSplitX s, oracle }
+  | "PARSE", [h] => do
+    let s ← Bytes.ofHex h
+    pure { model := fmtParse (parse s), oracle := ParseOracle.clauses s impl false }
+  | "PARSEV", [h] => do
+    let s ← Bytes.ofHex h
+    pure { model := fmtParse (parse s), oracle := ParseOracle.clauses s impl true }
   | _, _ => none
 
 def processLine (line : String) : String :=
